@@ -141,6 +141,27 @@ def run(ctx):
                        detail='0-d chunk handling changed')
     d5_tables(ctx)
     d2_arrayorder(ctx)
+    # fill generator: defaults decided by `is None`, never by truthiness (-0.0, 0 are legitimate fills)
+    fg = ctx.repo.func('array._fillgenerator')
+    bad = [n for n in own_nodes(fg.node) if isinstance(n, ast.BoolOp) and isinstance(n.op, ast.Or)
+           and any(isinstance(v, ast.Name) and v.id in ('fill', 'dtype', 'chunklen') for v in n.values[:1])]
+    tests = [n for n in own_nodes(fg.node) if isinstance(n, ast.If) and 'fill' in names_in(n.test)]
+    truthy = [t for t in tests if any(isinstance(x, ast.Name) and x.id == 'fill' and not _under_compare(t.test, x) for x in ast.walk(t.test))]
+    ctx.decide(not bad and not truthy, 'R-BELIEF', 'D3', fg, (bad + truthy)[0] if bad or truthy else None, 'fill-default-by-is-none',
+               '_fillgenerator decides "no fill given" by `is None`, not by truthiness',
+               detail='a falsy but legitimate fill value (-0.0, 0) is replaced by the default: the sign bit of -0.0 is lost')
+    ie = [n for n in own_nodes(fg.node) if isinstance(n, ast.IfExp) and 'fill' in names_in(n.test)]
+    ok = all(norm(n.test) in ('fill is None', 'fill is not None') for n in ie) and len(ie) >= 2
+    ctx.decide(ok, 'R-SIB', 'D3', fg, ie[0] if ie else None, 'fill-or-fillfunc',
+               '_fillgenerator fills every chunk (full and remainder) with `fillfunc(i) if fill is None else fill`',
+               detail='the full-chunk and remainder branches disagree or test truthiness')
+
+
+def _under_compare(test, name_node):
+    for c in ast.walk(test):
+        if isinstance(c, ast.Compare) and any(x is name_node for x in ast.walk(c)):
+            return True
+    return False
 
 
 def must_precede_defs(f, call, name):
